@@ -268,3 +268,28 @@ V('C13-fixed-ignores-offset', ['C13', 'C16'], BF, "            start = self.data
 V('C13-geoseries-columns', 'C13', 'spatialpandas/geoseries.py', "            self.array.bounds, columns=['x0', 'y0', 'x1', 'y1'], index=self.index", "            self.array.bounds, columns=['x0', 'x1', 'y0', 'y1'], index=self.index", rule='C13.d')
 V('C13-silent-rename-accumulators', 'C13', BN, "    vmin = np.inf\n    vmax = -np.inf\n\n    for i in range(0, len(values), 2):\n        v = values[i + offset]\n        if np.isfinite(v):\n            vmin = min(vmin, v)\n            vmax = max(vmax, v)\n\n    if np.isfinite(vmin):\n        return (vmin, vmax)",
   "    lo = np.inf\n    hi = -np.inf\n\n    for k in range(0, len(values), 2):\n        c = values[k + offset]\n        if np.isfinite(c):\n            lo = min(c, lo)\n            hi = max(c, hi)\n\n    if np.isfinite(lo):\n        return (lo, hi)", expect='silent')
+
+# ------------------------------------------------------------------------------------------------ C14
+ME = 'spatialpandas/geometry/_algorithms/measures.py'
+MP = 'spatialpandas/geometry/multipolygon.py'
+V('C14-length-mixes-axes', 'C14', ME, "total_len += sqrt((x1 - x0) ** 2 + (y1 - y0) ** 2)", "total_len += sqrt((x1 - x0) ** 2 + (y1 - x0) ** 2)", rule='C14')
+V('C14-length-no-square', 'C14', ME, "total_len += sqrt((x1 - x0) ** 2 + (y1 - y0) ** 2)", "total_len += sqrt((x1 - x0) ** 2 + (y1 - y0))", rule='C14')
+V('C14-shoelace-reads-x-for-y', 'C14', ME, "            jy = values[j + 1]", "            jy = values[j]", rule='C14')
+V('C14-area-early-return', 'C14', ME, "            # A degenerate polygon, zero area\n            continue", "            # A degenerate polygon, zero area\n            return 0.0", rule='C14.a')
+V('C14-area-threshold-3', 'C14', ME, "        if poly_length < 6:", "        if poly_length < 3:", rule='C14.a')
+V('C14-area-not-halved', 'C14', ME, "    return area / 2.0", "    return area", rule='C14.a')
+V('C14-length-drops-isfinite', 'C14', ME, "            if (np.isfinite(x0) and np.isfinite(y0) and\n                    np.isfinite(x1) and np.isfinite(y1)):\n                total_len += sqrt((x1 - x0) ** 2 + (y1 - y0) ** 2)", "            total_len += sqrt((x1 - x0) ** 2 + (y1 - y0) ** 2)", rule='C14.a')
+V('C14-area-loop-overrun', 'C14', ME, "        for k in range(start, stop - 4, 2):", "        for k in range(start, stop - 2, 2):", rule='C14')
+V('C14-nested3-skips-level', 'C14', BL, "            start = value_offsets1[value_offsets0[i]]\n            stop = value_offsets1[value_offsets0[i + 1]]", "            start = value_offsets0[i]\n            stop = value_offsets0[i + 1]", rule='C14')
+V('C14-nested3-wrong-plus-one', 'C14', BL, "            stop = value_offsets1[value_offsets0[i + 1]]", "            stop = value_offsets1[value_offsets0[i] + 1]", rule='C14')
+V('C14-nested2-no-fencepost', 'C14', BL, "            result[i] = fn(values, value_offsets1[start:stop + 1])", "            result[i] = fn(values, value_offsets1[start:stop])", rule='C14')
+V('C14-missing-guard-dropped', ['C14', 'C17'], BL, "        if not missing[i]:\n            start = value_offsets0[i]\n            stop = value_offsets0[i + 1]\n            result[i] = fn(values, value_offsets1[start:stop + 1])", "        if True:\n            start = value_offsets0[i]\n            stop = value_offsets0[i + 1]\n            result[i] = fn(values, value_offsets1[start:stop + 1])", rule=None, rules={'C14': 'C14.b', 'C17': 'C17'})
+V('C14-zero-prefill', ['C14', 'C17'], 'spatialpandas/geometry/polygon.py', "    def area(self):\n        result = np.full(len(self), np.nan, dtype=np.float64)", "    def area(self):\n        result = np.zeros(len(self), dtype=np.float64)", rule=None, rules={'C14': 'C14.b', 'C17': 'C17'})
+V('C14-polygon-length-uses-area', 'C14', 'spatialpandas/geometry/polygon.py', "    def length(self):\n        result = np.full(len(self), np.nan, dtype=np.float64)\n        _geometry_map_nested2(\n            compute_line_length,", "    def length(self):\n        result = np.full(len(self), np.nan, dtype=np.float64)\n        _geometry_map_nested2(\n            compute_area,", rule='C14.c')
+V('C14-multipolygon-wrong-depth', 'C14', MP, "from ..geometry.baselist import (\n    GeometryList,\n    GeometryListArray,\n    _geometry_map_nested3,\n)", "from ..geometry.baselist import (\n    GeometryList,\n    GeometryListArray,\n    _geometry_map_nested2 as _geometry_map_nested3,\n)", rule='C14', analysis_error_ok=True)
+V('C14-reintroduce-D6', ['C14', 'C17'], MP, "        new_data = pa.ListArray.from_arrays(\n            pa.array(offsets[1][offsets[0]], mask=missing), inner_data\n        )", "        new_data = pa.ListArray.from_arrays(offsets[1][offsets[0]], inner_data)", rule=None, rules={'C14': 'C14.d', 'C17': 'C17'})
+V('C14-boundary-skips-polygon-level', 'C14', MP, "            pa.array(offsets[1][offsets[0]], mask=missing), inner_data", "            pa.array(offsets[0], mask=missing), inner_data", rule='C14')
+V('C14-reintroduce-D16', ['C14', 'C01', 'C02'], BL, "        inner_offsets = buffer_offsets[0]\n        for offsets in buffer_offsets[1:]:\n            # offsets of the next level restricted to the parts selected so far\n            inner_offsets = offsets[inner_offsets[0]:inner_offsets[-1] + 1]\n        return inner_offsets",
+  "        start = buffer_offsets[0][0]\n        stop = buffer_offsets[0][-1]\n        for offsets in buffer_offsets[1:-1]:\n            start = offsets[start]\n            stop = offsets[stop]\n        return buffer_offsets[-1][start:stop + 1]", rule=None, rules={'C14': 'C14', 'C01': 'C01', 'C02': 'C02'})
+V('C14-inner-offsets-gather', ['C14', 'C02'], BL, "            inner_offsets = offsets[inner_offsets[0]:inner_offsets[-1] + 1]", "            inner_offsets = offsets[inner_offsets]", rule=None, rules={'C14': 'C14.c', 'C02': 'C02'})
+V('C14-silent-range-minus-5', 'C14', ME, "        for k in range(start, stop - 4, 2):", "        for k in range(start, stop - 5, 2):", expect='silent')
